@@ -63,6 +63,15 @@ PROPS = {
         'kani': [],
         'assumptions': [IDS_NONZERO, NOW, STD, 'guards are !Send (type level: they hold an Rc) so a scope cannot leave its thread'],
     },
+    'C12': {
+        'verus': [('ids', '*')],
+        'kani': [],
+        'assumptions': ['str::split(\'-\') yields the maximal dash-free segments in order and is fused (dash_fields)',
+                        'uN::from_str_radix(s, 16) is Ok(v) iff s is an optional + followed by >= 1 hex digits whose value v fits N bits (hexval)',
+                        'format!("{:0Wx}", v) is the W-digit lower-case hex text of v and parses back to v; hex digits are not dashes (axioms in units/ids/lemmas.rs)',
+                        'a str is determined by its characters (axiom_str_ext)',
+                        'NOT covered: Display/FromStr/serde impls of TraceId and SpanId (same two std calls behind fmt::Formatter / serde plumbing, which Verus cannot take)'],
+    },
     'C20': {
         'verus': [('jaeger', '*')],
         'kani': [],
